@@ -9,13 +9,13 @@
 size_t g_la_len, g_la_calls;            /* chains in the list / chains aggregated so far */
 int g_la_level;                         /* level the next chain has to start at (reference) */
 char g_la_pool[2][8]; KSI_DataHash *g_la_p0, *g_la_p1;   /* identities of the roots: chain k produces slot k % 2 */
-_Bool g_la_live0, g_la_live1; _Bool g_la_env_failed;
+_Bool g_la_live0, g_la_live1; _Bool g_la_env_failed; _Bool g_la_elem_failed;   /* (the list, not the aggregation, failed) */
 struct KSI_AggregationHashChain_st g_la_chain;
 
 static size_t la_length(KSI_LIST(KSI_AggregationHashChain) *l) { return g_la_len; }
 static int la_elementAt(KSI_LIST(KSI_AggregationHashChain) *l, size_t pos, KSI_AggregationHashChain **o) {
 	__CPROVER_assert(pos == g_la_calls && pos < g_la_len, "protocol: chains are taken first to last, each once");
-	if (nondet_bool()) { g_la_env_failed = 1; return KSI_INVALID_STATE; }
+	if (nondet_bool()) { g_la_env_failed = 1; g_la_elem_failed = 1; return KSI_INVALID_STATE; }
 	*o = &g_la_chain; return KSI_OK;
 }
 void KSI_DataHash_free(KSI_DataHash *h) {
@@ -31,6 +31,9 @@ int KSI_AggregationHashChain_aggregate(KSI_AggregationHashChain *aggr, int start
 __CPROVER_requires(aggr == &g_la_chain && endLevel != NULL && root != NULL)
 __CPROVER_requires(startLevel == g_la_level)
 __CPROVER_requires((g_la_calls % 2 == 0) ? !g_la_live0 : !g_la_live1)
+/* pointer output first and unconditional (dfcc havocs pointer targets of a replaced contract with ONE shared symbol, which the loop
+ * havoc of the caller's pointer locals uses too: an assumed '*root == old(*root)' made a failure at a later chain infeasible) */
+__CPROVER_ensures(__CPROVER_pointer_equals(*root, __CPROVER_return_value == KSI_OK ? (void *)((__CPROVER_old(g_la_calls) % 2 == 0) ? g_la_p0 : g_la_p1) : (void *)__CPROVER_old(*root)))
 __CPROVER_ensures(IMPLIES(__CPROVER_return_value == KSI_OK, g_la_calls == __CPROVER_old(g_la_calls) + 1 && *endLevel == g_la_level && 0 <= g_la_level && g_la_level <= 0xff &&
 		*root == ((__CPROVER_old(g_la_calls) % 2 == 0) ? g_la_p0 : g_la_p1) &&
 		((__CPROVER_old(g_la_calls) % 2 == 0) ? (g_la_live0 && g_la_live1 == __CPROVER_old(g_la_live1)) : (g_la_live1 && g_la_live0 == __CPROVER_old(g_la_live0))) && !g_la_env_failed))
@@ -46,7 +49,7 @@ __CPROVER_ensures(IMPLIES(__CPROVER_return_value == KSI_OK, g_la_calls == g_la_l
 		*outputHash == (g_la_len == 0 ? (KSI_DataHash *)0 : ((g_la_len - 1) % 2 == 0 ? g_la_p0 : g_la_p1))))
 __CPROVER_ensures(IMPLIES(__CPROVER_return_value == KSI_OK && g_la_len > 0, ((g_la_len - 1) % 2 == 0) ? (g_la_live0 && !g_la_live1) : (g_la_live1 && !g_la_live0)))
 __CPROVER_ensures(IMPLIES(__CPROVER_return_value != KSI_OK, !g_la_live0 && !g_la_live1 && *outputHash == __CPROVER_old(*outputHash)))
-__CPROVER_assigns(*outputHash, g_la_calls, g_la_level, g_la_live0, g_la_live1, g_la_env_failed);
+__CPROVER_assigns(*outputHash, g_la_calls, g_la_level, g_la_live0, g_la_live1, g_la_env_failed, g_la_elem_failed);
 
 #include "hashchain.c"
 
@@ -56,8 +59,10 @@ void harness(void) {
 	__CPROVER_assume(ctx != NULL);
 	memset(&lst, 0, sizeof(lst)); lst.length = la_length; lst.elementAt = la_elementAt;
 	g_la_p0 = (KSI_DataHash *)g_la_pool[0]; g_la_p1 = (KSI_DataHash *)g_la_pool[1];
-	g_la_len = nondet_size(); g_la_calls = 0; g_la_level = level; g_la_live0 = 0; g_la_live1 = 0; g_la_env_failed = 0;
+	g_la_len = nondet_size(); g_la_calls = 0; g_la_level = level; g_la_live0 = 0; g_la_live1 = 0; g_la_env_failed = 0; g_la_elem_failed = 0;
 	res = KSI_AggregationHashChainList_aggregate(&lst, ctx, level, out);
 	if (res == KSI_OK) REACH("aggregated"); else REACH("error");
 	if (res == KSI_OK && g_la_len > 2) REACH("several chains");
+	if (res != KSI_OK && !g_la_elem_failed && g_la_calls >= 1) REACH("the aggregation of a later chain fails");
+	if (res != KSI_OK && !g_la_elem_failed && g_la_calls == 0 && level >= 0 && level <= 0xff) REACH("the aggregation of the first chain fails");
 }
